@@ -214,7 +214,7 @@ Qed.
 
 (* ---------- the invariant of histories without a known-class step ---------- *)
 Notation step := (step ilabel ikey).
-Notation bad_step := (bad_step ilabel ikey).
+Notation bad_step := (bad_step ilabel).
 Notation run := (run ilabel ikey).
 
 Definition first_ok (n : node) : bool := label_eqb (n_first n) ilabel.
@@ -224,7 +224,7 @@ Record inv (s : state) : Prop := {
   inv_first : forall id n, get_node s id = Some n -> has_label n ilabel = true -> first_ok n = true;
   inv_nodup : forall ix, index s = Some ix -> NoDup ix;
   inv_complete : forall ix id n w, index s = Some ix -> get_node s id = Some n -> first_ok n = true ->
-                   pget ikey (n_props n) = Some w -> In (enc w, id) ix;
+                   pget ikey (n_props n) = Some w -> n_deleted n = false -> In (enc w, id) ix;
   inv_sound : forall ix k id, index s = Some ix -> In (k, id) ix ->
                 exists n w, get_node s id = Some n /\ first_ok n = true /\ pget ikey (n_props n) = Some w /\ k = enc w
 }.
@@ -250,9 +250,10 @@ Lemma inv_upd_labels s id f :
   inv s ->
   (forall n, n_first (f n) = n_first n /\ n_props (f n) = n_props n) ->
   (forall n, get_node s id = Some n -> has_label (f n) ilabel = true -> first_ok n = true) ->
+  (forall n, n_deleted (f n) = false -> n_deleted n = false) ->
   inv (upd_node s id f).
 Proof.
-  intros I Hf Hl.
+  intros I Hf Hl Hdel.
   assert (G : forall id' n', get_node (upd_node s id f) id' = Some n' ->
             exists n, get_node s id' = Some n /\ n_first n' = n_first n /\ n_props n' = n_props n /\
                       (n' = n \/ (id' = id /\ n' = f n))).
@@ -271,8 +272,10 @@ Proof.
     + eapply inv_first; eauto.
     + unfold first_ok. rewrite Hfi. apply (Hl n Hn L).
   - intros ix H. apply (inv_nodup s I). exact H.
-  - intros ix id' n' w Hix H F P. destruct (G _ _ H) as (n & Hn & Hfi & Hp & _).
-    unfold first_ok in F. rewrite Hfi in F. rewrite Hp in P. eapply inv_complete; eauto.
+  - intros ix id' n' w Hix H F P D. destruct (G _ _ H) as (n & Hn & Hfi & Hp & Hor).
+    unfold first_ok in F. rewrite Hfi in F. rewrite Hp in P.
+    assert (n_deleted n = false) by (destruct Hor as [->|[_ ->]]; [exact D|apply Hdel; exact D]).
+    eapply inv_complete; eauto.
   - intros ix k id' Hix Hin. destruct (inv_sound s I ix k id' Hix Hin) as (n & w & Hn & F & P & E).
     destruct (G2 _ _ Hn) as (n' & Hn' & Hfi & Hp). exists n', w. unfold first_ok. rewrite Hfi, Hp. auto.
 Qed.
@@ -332,7 +335,7 @@ Proof.
     destruct (label_eqb (hd_error labels) ilabel); [|exact ND]. destruct (pget ikey ps); [|exact ND].
     unfold idx_ins. constructor; [|exact ND]. intros Hin.
     destruct (inv_sound s I ix0 _ _ E Hin) as (n0 & w & Hn & _). fold id in Hn. unfold id in Hn. rewrite get_node_len in Hn. discriminate.
-  - intros ix id' n' w H G F P. subst ix'. cbn [index] in H. destruct (index s) as [ix0|] eqn:E; [|discriminate]. inversion H; subst ix; clear H.
+  - intros ix id' n' w H G F P D. subst ix'. cbn [index] in H. destruct (index s) as [ix0|] eqn:E; [|discriminate]. inversion H; subst ix; clear H.
     apply get_node_app in G. destruct G as [G|[-> ->]].
     + assert (In (enc w, id') ix0) by (eapply inv_complete; eauto).
       destruct (label_eqb (hd_error labels) ilabel); [|assumption]. destruct (pget ikey ps); [right|]; assumption.
@@ -404,7 +407,7 @@ Proof.
     destruct (last_for ikey sets None) as [v|]; [|eapply inv_nodup; eauto].
     destruct v; try (unfold idx_ins; constructor; [apply N2|exact N1]).
     destruct (pget ikey (n_props n0)); [exact N1|eapply inv_nodup; eauto].
-  - intros ix id' n' w H Gn F' P. subst ix'. cbn [index] in H. destruct (index s) as [ix0|] eqn:E; [|discriminate]. cbn [option_map] in H.
+  - intros ix id' n' w H Gn F' P D. subst ix'. cbn [index] in H. destruct (index s) as [ix0|] eqn:E; [|discriminate]. cbn [option_map] in H.
     inversion H; subst ix; clear H. unfold index_on_props. fold (first_ok n0).
     destruct (G _ _ Gn) as [[Hne Hold]|[-> ->]].
     + assert (Hin : In (enc w, id') ix0) by (eapply inv_complete; eauto).
@@ -418,7 +421,7 @@ Proof.
     + unfold first_ok in F'. cbn [f n_first] in F'. fold (first_ok n0) in F'. rewrite F'.
       rewrite Pnew in P. destruct (last_for ikey sets None) as [v|]; cbn [res] in P.
       * unfold stored in P. destruct v; inversion P; subst; left; reflexivity.
-      * eapply inv_complete; eauto.
+      * cbn [f n_deleted] in D. eapply inv_complete; eauto.
   - intros ix k id' H Hin. subst ix'. cbn [index] in H. destruct (index s) as [ix0|] eqn:E; [|discriminate]. cbn [option_map] in H.
     inversion H; subst ix; clear H. unfold index_on_props in Hin. fold (first_ok n0) in Hin.
     change (exists n w, nth_error (upd_nth (nodes s) (N.to_nat id) f) (N.to_nat id') = Some n /\ first_ok n = true /\ pget ikey (n_props n) = Some w /\ k = enc w).
@@ -446,37 +449,83 @@ Proof.
       exists (f n0), w. split; [exact G3|]. repeat split; auto. rewrite Pnew. cbn [res]. exact C.
 Qed.
 
+Lemma ssorted_nodup l : ssorted l -> NoDup l.
+Proof.
+  induction 1 as [|a t Ht IH Hf]; constructor; [|exact IH].
+  intros Hin. rewrite Forall_forall in Hf. specialize (Hf a Hin). lia.
+Qed.
+Lemma nodup_app {A} (a b : list A) : NoDup a -> NoDup b -> (forall x, In x a -> ~ In x b) -> NoDup (a ++ b).
+Proof.
+  induction 1 as [|x t Hn Hd IH]; intros Hb Hdis; cbn [app]; [exact Hb|].
+  constructor.
+  - intros Hin. apply in_app_or in Hin. destruct Hin as [Hin|Hin]; [contradiction|]. apply (Hdis x); [left; reflexivity|exact Hin].
+  - apply IH; [exact Hb|]. intros y Hy. apply Hdis. right; exact Hy.
+Qed.
+Lemma nodup_flat_map (f : N -> list entry) : forall l,
+  NoDup l -> (forall x e, In e (f x) -> snd e = x) -> (forall x, NoDup (f x)) -> NoDup (flat_map f l).
+Proof.
+  induction 1 as [|a t Hn Hd IH]; intros Hs Hf; cbn [flat_map]; [constructor|].
+  apply nodup_app; [apply Hf|apply IH; assumption|].
+  intros e He Hin. apply in_flat_map in Hin. destruct Hin as (y & Hy & Hey).
+  apply Hs in He. apply Hs in Hey. subst. contradiction.
+Qed.
+
+Lemma backfill_in s k id :
+  In (k, id) (backfill ilabel ikey s) <->
+  exists n w, get_node s id = Some n /\ n_deleted n = false /\ first_ok n = true /\
+              pget ikey (n_props n) = Some w /\ k = enc w.
+Proof.
+  unfold backfill. rewrite in_flat_map. split.
+  - intros (x & Hx & He). apply ids_from_in in Hx. destruct Hx as (n & _ & Hn & Hp).
+    replace (x - 0) with x in Hn by lia.
+    unfold backfill_one, get_node in He. rewrite Hn in He.
+    destruct (pget ikey (n_props n)) as [w|] eqn:P; [|destruct He].
+    destruct He as [He|[]]. inversion He; subst. apply andb_prop in Hp. destruct Hp as [D F].
+    exists n, w. unfold get_node. repeat split; auto. destruct (n_deleted n); [discriminate|reflexivity].
+  - intros (n & w & Hn & D & F & P & ->). exists id. split.
+    + apply ids_from_in. exists n. replace (id - 0) with id by lia. repeat split; [lia|exact Hn|].
+      rewrite D. exact F.
+    + unfold backfill_one. rewrite Hn, P. left; reflexivity.
+Qed.
+Lemma backfill_nodup s : NoDup (backfill ilabel ikey s).
+Proof.
+  unfold backfill. apply nodup_flat_map.
+  - apply ssorted_nodup, ids_from_ssorted.
+  - intros x e He. unfold backfill_one in He. destruct (get_node s x) as [n|]; [|destruct He].
+    destruct (pget ikey (n_props n)); [|destruct He]. destruct He as [<-|[]]. reflexivity.
+  - intros x. unfold backfill_one. destruct (get_node s x) as [n|]; [|constructor].
+    destruct (pget ikey (n_props n)); repeat constructor. intros [].
+Qed.
+
 Lemma inv_step s o : inv s -> bad_step s o = false -> inv (step s o).
 Proof.
   intros I B. destruct o.
   - apply inv_create; assumption.
   - apply inv_props; assumption.
   - (* add label *)
-    cbn [Model.step]. apply inv_upd_labels; [exact I|intros n; split; reflexivity|].
+    cbn [Model.step]. apply inv_upd_labels; [exact I|intros n; split; reflexivity| |cbn; intros n D; try exact D; discriminate].
     intros n Hn L. cbn [Model.bad_step] in B. rewrite Hn in B. unfold has_label in L. cbn [n_labels] in L.
     destruct (existsb (N.eqb l) (n_labels n)) eqn:E.
     + eapply inv_first; eauto.
     + rewrite has_label_app in L. apply orb_prop in L. destruct L as [L|L]; [eapply inv_first; eauto|].
       apply N.eqb_eq in L. subst l. rewrite N.eqb_refl in B. cbn in B. apply negb_false_iff in B. exact B.
   - (* remove label *)
-    cbn [Model.step]. apply inv_upd_labels; [exact I|intros n; split; reflexivity|].
+    cbn [Model.step]. apply inv_upd_labels; [exact I|intros n; split; reflexivity| |cbn; intros n D; try exact D; discriminate].
     intros n Hn L. eapply inv_first; eauto. unfold has_label in *. cbn [n_labels] in L.
     apply existsb_exists in L. destruct L as (x & Hx & Ex). apply filter_In in Hx. apply existsb_exists. exists x. split; [apply Hx|exact Ex].
   - (* delete *)
-    cbn [Model.step]. apply inv_upd_labels; [exact I|intros n; split; reflexivity|].
+    cbn [Model.step]. apply inv_upd_labels; [exact I|intros n; split; reflexivity| |cbn; intros n D; try exact D; discriminate].
     intros n Hn L. eapply inv_first; eauto.
   - (* create index *)
     cbn [Model.step]. destruct (index s) as [ix|] eqn:E.
     + replace (mkState (nodes s) (Some ix)) with s; [exact I|]. destruct s; cbn in *; congruence.
-    + cbn [Model.bad_step] in B. rewrite E in B.
-      destruct I as [I1 I2 I3 I4 I5]. split; cbn [index]; unfold get_node in *; cbn [nodes]; intros; eauto.
-      * inversion H; subst. constructor.
-      * exfalso.
-        assert (existsb (fun n => (has_label n ilabel || label_eqb (n_first n) ilabel) &&
-                  match pget ikey (n_props n) with Some _ => true | None => false end) (nodes s) = true); [|congruence].
-        apply existsb_exists. exists n. split; [eapply nth_error_In; eauto|].
-        unfold first_ok in H1. rewrite H1, H2, orb_true_r. reflexivity.
-      * inversion H; subst. destruct H0.
+    + destruct I as [I1 I2 I3 I4 I5]. split; cbn [index].
+      * intros id n k w H P. eapply I1; eauto.
+      * intros id n H L. eapply I2; eauto.
+      * intros ix H. inversion H; subst. apply backfill_nodup.
+      * intros ix id n w H G F P D. inversion H; subst. apply backfill_in. exists n, w. repeat split; auto.
+      * intros ix k id H Hin. inversion H; subst. apply backfill_in in Hin.
+        destruct Hin as (n & w & Hn & D & F & P & K). exists n, w. repeat split; auto.
   - exact I.
   - exact I.
   - discriminate.
@@ -492,14 +541,31 @@ Qed.
 Lemma inv_run h : good ilabel ikey h = true -> inv (run h).
 Proof. intros G. apply inv_run_from; [apply inv_st0|exact G]. Qed.
 
-Lemma nodup_lookup_ids K : forall ix : list entry,
-  NoDup ix -> NoDup (map snd (filter (fun e => bytes_eqb (fst e) K) ix)).
+Lemma nodup_snd_of_unique (ix : list entry) :
+  NoDup ix -> (forall k k' i, In (k, i) ix -> In (k', i) ix -> k = k') -> NoDup (map snd ix).
 Proof.
-  induction 1 as [|[k i] t Hn Hd IH]; cbn [filter map]; [constructor|].
-  cbn [fst]. destruct (bytes_eqb k K) eqn:E; [|exact IH]. cbn [map snd]. constructor; [|exact IH].
-  intros Hin. apply in_map_iff in Hin. destruct Hin as ([k' i'] & Hs & Hf). cbn in Hs. subst i'.
-  apply filter_In in Hf. destruct Hf as [Hf1 Hf2]. cbn [fst] in Hf2.
-  apply bytes_eqb_eq in E. apply bytes_eqb_eq in Hf2. subst. contradiction.
+  induction 1 as [|[k i] t Hn Hd IH]; intros U; cbn [map snd]; [constructor|].
+  constructor.
+  - intros Hin. apply in_map_iff in Hin. destruct Hin as ([k' i'] & Hs & Ht). cbn in Hs. subst i'.
+    assert (k = k') by (apply (U k k' i); [left; reflexivity|right; exact Ht]). subst k'. contradiction.
+  - apply IH. intros k1 k2 j H1 H2. apply (U k1 k2 j); right; assumption.
+Qed.
+Lemma nodup_map_filter {A B} (f : A -> B) (p : A -> bool) (l : list A) :
+  NoDup (map f l) -> NoDup (map f (filter p l)).
+Proof.
+  induction l as [|x t IH]; intros H; cbn [filter map]; [constructor|].
+  cbn [map] in H. inversion H as [|? ? Hn Hd]; subst.
+  destruct (p x); [|apply IH; exact Hd]. cbn [map]. constructor; [|apply IH; exact Hd].
+  intros Hin. apply Hn. apply in_map_iff in Hin. destruct Hin as (y & Hy & Hf). apply filter_In in Hf.
+  apply in_map_iff. exists y. split; [exact Hy|apply Hf].
+Qed.
+Lemma inv_nodup_ids s ix : inv s -> index s = Some ix -> NoDup (map snd ix).
+Proof.
+  intros I Hix. apply nodup_snd_of_unique; [eapply inv_nodup; eauto|].
+  intros k k' i H1 H2.
+  destruct (inv_sound s I ix k i Hix H1) as (n & w & Hn & _ & P & ->).
+  destruct (inv_sound s I ix k' i Hix H2) as (n' & w' & Hn' & _ & P' & ->).
+  rewrite Hn in Hn'. inversion Hn'; subst n'. rewrite P in P'. inversion P'; reflexivity.
 Qed.
 
 Theorem inv_transparent s l preds :
@@ -511,28 +577,35 @@ Proof.
   unfold Model.lookup in L. destruct ((l =? ilabel) && (k0 =? ikey)) eqn:E; [|discriminate].
   apply andb_prop in E. destruct E as [El Ek]. apply N.eqb_eq in El, Ek. subst l k0.
   destruct (index s) as [ix|] eqn:Hix; [|discriminate].
-  assert (Hids : ids = map snd (filter (fun e : entry => bytes_eqb (fst e) (enc v0)) ix)).
+  assert (Hids : ids = map snd (filter (fun e : entry => existsb (bytes_eqb (fst e)) (seek_keys v0)) ix)).
   { match type of L with (match ?m with _ => _ end) = _ => change (ids = m); destruct m; [discriminate|inversion L; reflexivity] end. }
   clear L. split.
-  - rewrite Hids. apply nodup_lookup_ids. eapply inv_nodup; eauto.
+  - rewrite Hids. apply nodup_map_filter. eapply inv_nodup_ids; eauto.
   - intros id n Hn Hd Hs. unfold sat in Hs. apply andb_prop in Hs. destruct Hs as [Hl Hf].
     rewrite Hp in Hf. cbn [forallb fst snd] in Hf. apply andb_prop in Hf. destruct Hf as [Hf _].
     destruct (pget ikey (n_props n)) as [w|] eqn:P; [|discriminate].
     assert (Tw : typed w = true) by (eapply inv_typed; eauto).
     assert (Tv : typed v0 = true).
     { rewrite Hp in T. cbn [typed_props forallb snd] in T. apply andb_prop in T. apply T. }
-    assert (K : kind w = kind v0).
-    { specialize (Hnum ikey v0 rest Hp). unfold Model.k_numeric in Hnum.
-      destruct (N.eq_dec (kind w) (kind v0)) as [Q|Q]; [exact Q|exfalso].
-      assert (existsb (fun n => negb (n_deleted n) && has_label n ilabel &&
-                 match pget ikey (n_props n) with Some w => oeq_true w v0 && negb (kind w =? kind v0) | None => false end) (nodes s) = true); [|congruence].
-      apply existsb_exists. exists n. split; [unfold get_node in Hn; eapply nth_error_In; eauto|].
-      rewrite Hd, Hl, P, Hf. apply N.eqb_neq in Q. rewrite Q. reflexivity. }
-    assert (Henc := oeq_true_enc w v0 Tw Tv K Hf).
     assert (Hin : In (enc w, id) ix).
     { eapply inv_complete; eauto. eapply inv_first; eauto. }
     rewrite Hids. apply in_map_iff. exists (enc w, id). split; [reflexivity|].
-    apply filter_In. split; [exact Hin|]. cbn [fst]. apply bytes_eqb_eq. exact Henc.
+    apply filter_In. split; [exact Hin|]. cbn [fst]. unfold seek_keys. cbn [existsb].
+    destruct (N.eq_dec (kind w) (kind v0)) as [K|K].
+    + rewrite (oeq_true_enc w v0 Tw Tv K Hf).
+      assert (bytes_eqb (enc v0) (enc v0) = true) by (apply bytes_eqb_eq; reflexivity). rewrite H. reflexivity.
+    + (* the other numeric type: reached through the twin *)
+      specialize (Hnum ikey v0 rest Hp). unfold Model.k_numeric in Hnum.
+      assert (Hhit : twin_hit w v0 = true).
+      { destruct (twin_hit w v0) eqn:Q; [reflexivity|exfalso].
+        assert (existsb (fun n => negb (n_deleted n) && has_label n ilabel &&
+                   match pget ikey (n_props n) with
+                   | Some w => oeq_true w v0 && negb (kind w =? kind v0) && negb (twin_hit w v0)
+                   | None => false end) (nodes s) = true); [|congruence].
+        apply existsb_exists. exists n. split; [unfold get_node in Hn; eapply nth_error_In; eauto|].
+        rewrite Hd, Hl, P, Hf, Q. apply N.eqb_neq in K. rewrite K. reflexivity. }
+      unfold twin_hit in Hhit. destruct (twin v0) as [t|]; [|discriminate]. cbn [existsb].
+      rewrite Hhit. rewrite orb_true_r. reflexivity.
 Qed.
 
 End Idx.
@@ -554,27 +627,31 @@ Definition w_good : list op :=
   [OCreateIndex; OCreate [0] [(1, OInt 1); (2, OStr [97])]; OCreate [0; 2] [(1, OInt 1)]; OCreate [0] [(1, OInt 1)];
    OProps 0 [(1, OInt 5)]; OProps 0 [(1, OInt 1)]; ODelete 1; ORemoveLabel 2 0; OCompact; OCreate [1] [(1, OInt 1)]].
 
-Lemma refuted_backfill :
-  seek_eval 0 1 (run 0 1 w_backfill) 0 [(1, OInt 1)] = [2] /\
-  scan_eval (run 0 1 w_backfill) 0 [(1, OInt 1)] = [0; 1; 2] /\
-  k_backfill 0 1 (run 0 1 w_backfill) = true.
+(* repaired (create_index backfills): the former witness now agrees *)
+Lemma fixed_backfill :
+  good 0 1 w_backfill = true /\
+  seek_eval 0 1 (run 0 1 w_backfill) 0 [(1, OInt 1)] = [0; 1; 2] /\
+  scan_eval (run 0 1 w_backfill) 0 [(1, OInt 1)] = [0; 1; 2].
 Proof. vm_compute. repeat split. Qed.
 Lemma refuted_label :
   seek_eval 0 1 (run 0 1 w_label) 0 [(1, OInt 1)] = [0] /\
   scan_eval (run 0 1 w_label) 0 [(1, OInt 1)] = [0; 1] /\
   k_label 0 1 (run 0 1 w_label) = true.
 Proof. vm_compute. repeat split. Qed.
-Lemma refuted_numeric :
-  seek_eval 0 1 (run 0 1 w_numeric) 0 [(1, OInt 1)] = [0] /\
+(* repaired (the seek looks up both numeric encodings): int 1 and float 1.0 are both found *)
+Lemma fixed_numeric :
+  good 0 1 w_numeric = true /\
+  seek_eval 0 1 (run 0 1 w_numeric) 0 [(1, OInt 1)] = [0; 1] /\
   scan_eval (run 0 1 w_numeric) 0 [(1, OInt 1)] = [0; 1] /\
-  k_numeric 0 1 (run 0 1 w_numeric) (OInt 1) = true /\ good 0 1 w_numeric = true.
+  seek_eval 0 1 (run 0 1 w_numeric) 0 [(1, OFloat 4607182418800017408)] = [0; 1] /\
+  k_numeric 0 1 (run 0 1 w_numeric) (OInt 1) = false.
 Proof. vm_compute. repeat split. Qed.
 Lemma full_refuted :
   ~ (forall il ik (h : list op) l preds,
        seek_eval il ik (run il ik h) l preds = scan_eval (run il ik h) l preds).
 Proof.
-  intros H. specialize (H 0 1 w_backfill 0 [(1, OInt 1)]).
-  destruct refuted_backfill as (A & B & _). rewrite A, B in H. discriminate.
+  intros H. specialize (H 0 1 w_label 0 [(1, OInt 1)]).
+  destruct refuted_label as (A & B & _). rewrite A, B in H. discriminate.
 Qed.
 Lemma nonvacuous :
   good 0 1 w_good = true /\
